@@ -3,6 +3,7 @@ import NmVerif.Simd.LoopLemmas
 import NmVerif.Simd.ReduceLemmas
 import NmVerif.Simd.EnumLemmas
 import NmVerif.Simd.HorizLemmas
+import NmVerif.Simd.VertLemmas
 /-
   C12 — SIMD evaluation equals scalar evaluation for every size, shape and layout.
   Only property statements (+ non-vacuity examples, counterexamples of known findings) live here.
@@ -349,6 +350,72 @@ theorem msum_eq_scalar_fold (op : α → α → α) (e : α) (hm : IsCommMonoid 
   show (x :: xs).foldl op e = xs.foldl op x
   rw [List.foldl_cons, hm.id_left]
 
+/-! ## eval_reduction along an axis other than the last (VERTICAL) -/
+
+/-- **vertical SIMD reduction = the lane-free scalar accumulation loop** `for i < R: out_row(i / A) ⊕= inp_row(i)`,
+    for every lane count, every row length `C` (registers, then `C mod N` single cells), every `Ro`, `A`;
+    `(R, C)` / `(Ro, C)` are the 2-d forms `reduction_nd_reshape` gives operand and (keepdims-shaped) output,
+    `R = Ro·A` with `A` the reduced extent.  Needs no algebraic law at all; the result is `some _`:
+    no load or store leaves a buffer. -/
+theorem simdReduceVertical_eq_loop (N : Nat) (hN : 0 < N) (packOp : List α → List α → List α)
+    (op : α → α → α) (hp : LaneWise2 N packOp op)
+    (inp : List α) (outShape inpShape : List Nat) (axis R C Ro A : Nat)
+    (hA : 0 < A) (hRo : 0 < Ro) (hR : R = Ro * A)
+    (hRC : reductionNdReshape .vertical inpShape axis = (R, C))
+    (hOut : reductionNdReshape .vertical outShape axis = (Ro, C))
+    (hinp : inp.length = R * C) (out : List α) (hout : out.length = Ro * C) :
+    simdReduceVertical N packOp op inp outShape inpShape axis out = some (vloop op inp C A out R) := by
+  unfold simdReduceVertical reductionSize
+  rw [hRC]
+  show (List.range (R * vCs N C)).foldlM _ _ = _
+  rw [foldlM_range_mul]
+  have key : ∀ m, m ≤ R →
+      (List.range m).foldlM (fun s i => (List.range (vCs N C)).foldlM
+          (fun s j => vertStep N packOp op inp outShape inpShape axis s (i * vCs N C + j)) s) out
+        = some (vloop op inp C A out m) := by
+    intro m
+    induction m with
+    | zero => intro _; simp [vloop]
+    | succ m ih =>
+      intro hm
+      rw [List.range_succ, List.foldlM_append, ih (by omega)]
+      simp only [Option.bind_eq_bind, Option.bind_some, List.foldlM_cons, List.foldlM_nil]
+      rw [vert_row N packOp op inp outShape inpShape axis R C Ro A hp hN hA hRo hR hRC hOut m (by omega) hinp _
+            (vloop_length op inp C A Ro R out hA hR hinp hout m (by omega))]
+      simp [vloop_succ]
+  exact key R (Nat.le_refl R)
+
+/-- **… and every output row is the column-wise left fold of the `A` input rows it reduces**, starting from the
+    row the output was pre-filled with (the identity): `simdReduce_eq_fold`, vertical case. -/
+theorem simdReduceVertical_eq_fold (N : Nat) (hN : 0 < N) (packOp : List α → List α → List α)
+    (op : α → α → α) (hp : LaneWise2 N packOp op)
+    (inp : List α) (outShape inpShape : List Nat) (axis R C Ro A : Nat)
+    (hA : 0 < A) (hRo : 0 < Ro) (hR : R = Ro * A)
+    (hRC : reductionNdReshape .vertical inpShape axis = (R, C))
+    (hOut : reductionNdReshape .vertical outShape axis = (Ro, C))
+    (hinp : inp.length = R * C) (out : List α) (hout : out.length = Ro * C) :
+    ∃ res, simdReduceVertical N packOp op inp outShape inpShape axis out = some res ∧ res.length = Ro * C ∧
+      ∀ ρ, ρ < Ro → rowOf res C ρ
+        = (List.range A).foldl (fun acc a => List.zipWith op acc (rowOf inp C (ρ * A + a))) (rowOf out C ρ) := by
+  refine ⟨vloop op inp C A out R,
+    simdReduceVertical_eq_loop N hN packOp op hp inp outShape inpShape axis R C Ro A hA hRo hR hRC hOut hinp out hout,
+    vloop_length op inp C A Ro R out hA hR hinp hout R (Nat.le_refl R), ?_⟩
+  intro ρ hρ
+  rw [vloop_row op inp C A Ro R out hA hR hinp hout R (Nat.le_refl R) ρ hρ]
+  have : min A (R - ρ * A) = A := by
+    have h1 : (ρ + 1) * A ≤ Ro * A := Nat.mul_le_mul_right A hρ
+    rw [Nat.succ_mul] at h1
+    omega
+  rw [this]
+
+/-- a row pre-filled with a left identity absorbs the first input row unchanged: the fold above is then the scalar
+    evaluator's "first element, then `op(acc, x)`" on every column -/
+theorem zipWith_identity_row (op : α → α → α) (e : α) (hid : ∀ a, op e a = a) (row : List α) :
+    List.zipWith op (List.replicate row.length e) row = row := by
+  induction row with
+  | nil => rfl
+  | cons x xs ih => simp [List.replicate_succ, hid, ih]
+
 /-! non-vacuity -/
 example : LaneWise1 4 (fun xs : List Nat => xs.map (· + 1)) (· + 1) := fun _ _ => rfl
 example : (⟨[2,5], false, List.range 10⟩ : NDA Nat).WF ∧ Pos [2,5] := ⟨by simp [NDA.WF, prod], by decide⟩
@@ -362,6 +429,8 @@ example : reductionNdReshape .horizontal [2,3,5] 2 = (6, 5) ∧ reductionNdResha
     ∧ reductionNdReshape .vertical [2,1,5] 1 = (2, 5) := by decide
 example : simdReduceHorizontal 4 (List.zipWith (· + ·)) (· + ·) (0 : Int) [1,2,3,4,5,6,7,8,9,10] [2,1] [2,5] 1 [0,0]
     = some [15, 40] := by decide
+example : simdReduceVertical 4 (List.zipWith (· + ·)) (· + ·) [1,2,3,4,5,6,7,8,9,10,11,12] [1,6] [2,6] 0 (List.replicate 6 (0 : Int))
+    = some [8,10,12,14,16,18] := by decide
 example : simdReduceAll 4 (List.zipWith (· + ·)) (· + ·) (0 : Int) ⟨[2,5], false, [1,2,3,4,5,6,7,8,9,10]⟩ = some 55 := by decide
 
 end NmVerif.Props.C12
